@@ -5,7 +5,7 @@
    statement of the documented layouts and is tied to the code by differential execution on all 45 formats).
    Every theorem below quantifies over the whole input domain of the conversion it is about. *)
 From Coq Require Import ZArith List Bool Lia.
-From DDSV Require Import model.Float model.Convert spec.SpecNum proofs.ConvertProofsA proofs.ConvertProofsB proofs.ConvertProofsC proofs.ConvertProofsD proofs.YuvProofs.
+From DDSV Require Import model.Float model.Convert spec.SpecNum proofs.ConvertProofsA proofs.ConvertProofsB proofs.ConvertProofsC proofs.ConvertProofsD proofs.YuvProofs model.Encode proofs.FloatMono proofs.QuantProofs proofs.QuantProofs16.
 Import ListNotations.
 Local Open Scope Z_scope.
 
@@ -61,11 +61,21 @@ Theorem C04_yuv_wide_white_refuted :
   yuv 10 0 940 512 512 = [254; 254; 254] /\ yuv 10 1 940 512 512 = [65343; 65343; 65343] /\ yuv 16 0 60160 32768 32768 = [254; 254; 254].
 Proof. exact yuv_wide_white_refuted. Qed.
 
+(* f32 channels (R32*_FLOAT) to 8 and 16 bits, for EVERY f32 bit pattern b in [0, 2^40) (LIM = 0x53800000): the
+   conversion is fp::n8 / fp::n16 = (x * max + 0.5) as integer; it is monotone and its boundary between k-1 and k
+   is the f32 T8 k / T16 k, within one ULP of the correctly rounded ideal boundary (k - 1/2) / max *)
+Theorem C04_f32_to_u8 : forall b k, 0 <= b < LIM -> 1 <= k <= 255 ->
+  (b < T8 k -> fp_n8 (f32_of_bits b) <= k - 1) /\ (T8 k <= b -> k <= fp_n8 (f32_of_bits b)) /\ Z.abs (T8 k - ideal_boundary 255 k) <= 1.
+Proof. exact n8_from_spec. Qed.
+Theorem C04_f32_to_u16 : forall b k, 0 <= b < LIM -> 1 <= k <= 65535 ->
+  (b < T16 k -> fp_n16 (f32_of_bits b) <= k - 1) /\ (T16 k <= b -> k <= fp_n16 (f32_of_bits b)) /\ Z.abs (T16 k - ideal_boundary 65535 k) <= 1.
+Proof. exact n16_from_spec. Qed.
+
 Example C04_ex_f11 : fp16_n16 14337 = 32800 /\ nearest 32799 (1025 * 65535) 2048.
 Proof. exact fp16_n16_witness. Qed.
 Example C04_ex_unorm : In (n5_n8, 5, 255) unorm_cases /\ n5_n8 31 = 255 /\ n5_n8 16 = 132.
 Proof. split; [cbn; tauto|split; reflexivity]. Qed.
 
 Definition C04_all := (C04_unorm_nearest, C04_snorm8_nearest, C04_snorm16_nearest, C04_xr_nearest, C04_unorm_f32, C04_n16_f32, C04_s16_f32,
-  C04_small_floats, C04_rgb9995, C04_fp16, C04_fp16_n16_refuted, C04_yuv8_grey_axis, C04_yuv_wide_white_refuted).
+  C04_small_floats, C04_rgb9995, C04_fp16, C04_fp16_n16_refuted, C04_yuv8_grey_axis, C04_yuv_wide_white_refuted, C04_f32_to_u8, C04_f32_to_u16).
 Redirect "props/C04.assumptions" Print Assumptions C04_all.
